@@ -98,6 +98,76 @@ def gen_large_union(rng):
     return ["unite", rng.sample(pool, n)]
 
 
+TD_NAMES = ["x", "y", "z"]
+TD_TYPES = [["typed", "int"], ["typed", "str"], ["typed", "bool"], ["typed", "object"], ["typed", "float"], ["known", ["int", 1]],
+            ["unite", [["typed", "int"], ["known", ["none"]]]], ["generic", "list", [["typed", "int"]]]]
+
+
+def gen_td(rng):
+    """a TypedDict over the keys x, y, z: every combination of Required/NotRequired x ReadOnly/mutable per key,
+    open / closed / extra_items (possibly read-only)"""
+    names = sorted(rng.sample(TD_NAMES, rng.randrange(0, 4)))
+    entries = [[n, rng.choice(TD_TYPES), rng.random() < 0.5, rng.random() < 0.5] for n in names]
+    r = rng.random()
+    extra = None if r < 0.5 else (["unite", []] if r < 0.75 else rng.choice(TD_TYPES))
+    return ["td", entries, extra, rng.random() < 0.5]
+
+
+def mutate_td(rng, s):
+    """a TypedDict close to s: one or two edits among drop a key, add a key, flip Required / ReadOnly, change or
+    narrow a value type, change open / closed / extra_items"""
+    entries = [list(e) for e in s[1]]
+    extra, ro = s[2], s[3]
+    for _ in range(rng.choice([0, 1, 1, 2])):
+        op = rng.randrange(6)
+        if op == 0 and entries:
+            entries.pop(rng.randrange(len(entries)))
+        elif op == 1:
+            free = [n for n in TD_NAMES if n not in [e[0] for e in entries]]
+            if free:
+                entries.append([rng.choice(free), rng.choice(TD_TYPES), rng.random() < 0.5, rng.random() < 0.5])
+        elif op == 2 and entries:
+            e = rng.choice(entries)
+            e[2] = not e[2]
+        elif op == 3 and entries:
+            e = rng.choice(entries)
+            e[3] = not e[3]
+        elif op == 4 and entries:
+            e = rng.choice(entries)
+            e[1] = narrow(e[1], rng) if rng.random() < 0.5 else rng.choice(TD_TYPES)
+        else:
+            r = rng.random()
+            extra = None if r < 0.4 else (["unite", []] if r < 0.7 else rng.choice(TD_TYPES))
+            ro = rng.random() < 0.5
+    entries.sort(key=lambda e: e[0])
+    return ["td", entries, extra, ro]
+
+
+SCALAR_VALUES = [["int", 1], ["str", "s"], ["bool", True], ["none"], ["float", 1.5], ["list", 7999, [["int", 1]]], ["str", "oops"]]
+
+
+def gen_td_member(rng, s, depth):
+    """an object of the TypedDict s: required keys present, optional ones sometimes; for an open TypedDict extra
+    keys (named like the keys other TypedDicts use) with arbitrary values, for extra_items values of that type"""
+    kvs = []
+    for name, t, req, _ro in s[1]:
+        if req or rng.random() < 0.6:
+            v = gen_member(rng, t, depth - 1)
+            if v is None:
+                if req:
+                    return None
+                continue
+            kvs.append([["str", name], v])
+    closed = s[2] == ["unite", []]
+    if not closed:
+        for name in TD_NAMES:
+            if name not in [e[0] for e in s[1]] and rng.random() < 0.6:
+                v = rng.choice(SCALAR_VALUES) if s[2] is None else gen_member(rng, s[2], depth - 1)
+                if v is not None:
+                    kvs.append([["str", name], v])
+    return ["dict", 7000 + rng.randrange(1000), kvs]
+
+
 def wrap_member(rng, m):
     """a value that a union member accepts: the member itself, Annotated[member], a narrowing of it"""
     r = rng.random()
@@ -227,6 +297,8 @@ def gen_member(rng, s, depth=3):
         return ["str", "a"]
     if k == "alias":
         return None  # the fixed pool and the other operands' members cover aliases
+    if k == "td":
+        return gen_td_member(rng, s, depth)
     if k == "known":
         return s[1]
     if k == "newtype":
@@ -335,6 +407,19 @@ def run(tier: str, replay: str | None = None):
                     a, b = gen_static(rng, 2, any_ok), a
                 big = a if a[0] == "unite" and len(a[1]) > 8 else b
                 c = wrap_member(rng, rng.choice(big[1]))
+            elif rng.random() < 0.09:
+                # TypedDict against TypedDict (top of A and B; also wrapped in list[...] / Optional): all qualifier
+                # combinations, decided by the witness-object oracle only (TypedDict is not in the can_assign model)
+                a = gen_td(rng)
+                b = mutate_td(rng, a) if rng.random() < 0.8 else gen_td(rng)
+                if rng.random() < 0.5:
+                    a, b = b, a
+                w = rng.random()
+                if w < 0.15:
+                    a, b = ["generic", "list", [a]], ["generic", "list", [b]]
+                elif w < 0.3:
+                    a, b = ["unite", [a, ["known", ["none"]]]], ["unite", [b, ["known", ["none"]]]]
+                c = gen_static(rng, 1)
             elif rng.random() < 0.07:
                 # type aliases, at the top of A and B only (PEP 695: two same-named aliases of one module, one
                 # generic alias); C stays alias-free and the union laws are not evaluated for these cases
@@ -389,7 +474,7 @@ def run(tier: str, replay: str | None = None):
         if extra is None:
             erng = random.Random(__import__("zlib").crc32(json.dumps(case, sort_keys=True).encode()))
             extra = []
-            for src, cnt in ((case["b"], 5), (case["a"], 2), (case["c"], 1)):
+            for src, cnt in ((case["b"], 12 if G_has(case, "td") else 5), (case["a"], 2), (case["c"], 1)):
                 for _ in range(cnt):
                     m = gen_member(erng, src)
                     if m is not None:
@@ -435,7 +520,7 @@ def run(tier: str, replay: str | None = None):
         if "model" in r:
             # alias cases: the term is the expansion of the alias; pyanalyze does not expand an alias on the right
             # of a union (incompleteness, see design.d/C04.md), so only the soundness oracle applies to them
-            alias_case = G_has(r["case"], "alias")
+            alias_case = G_has(r["case"], "alias") or G_has(r["case"], "td")
             mism = [] if alias_case else [k for k in r["obs"] if r["obs"][k] != r["model"][k]]
             if mism:
                 corr.append((r, mism))
@@ -475,9 +560,10 @@ def run(tier: str, replay: str | None = None):
         if bad:
             attributed = False
             # (alias cases have no verdict correspondence; the NewType finding is still recognised on the expansion)
-            if "model" in r and (G_has(r["case"], "alias") or not [k for k in r["obs"] if r["obs"][k] != r["model"][k]]):
+            if "model" in r and (G_has(r["case"], "alias") or G_has(r["case"], "td") or not [k for k in r["obs"] if r["obs"][k] != r["model"][k]]):
                 cl = r["clauses"]
                 for fid, cond in (
+                                  ("C04-typeddict-closed-target-ignores-source-keys", set(bad) <= {"sound"} and witness is not None and td_closed_target_clause(r["case"], witness)),
                                   ("C04-newtype-accepts-supertype", set(bad) <= {"sound"} and cl["newtype"] and not cl["strict"]),
                                   ):
                     if cond and fid in findings:
@@ -556,6 +642,41 @@ def non_strict_reason(case, clauses):
     if has([a, b], lambda s: s and s[0] == "typed" and s[1] in ("type",)) or has([a, b], lambda s: s and s[0] == "subclass" and s[1][0] != "typed"):
         return "type / type[generic]"
     return "other (protocol targets, class literals against classes, nested combinations)"
+
+
+def first_td(s):
+    if not isinstance(s, list):
+        return None
+    if s and s[0] == "td" and len(s) == 4:
+        return s
+    for x in s:
+        t = first_td(x)
+        if t is not None:
+            return t
+    return None
+
+
+def td_closed_target_clause(case, witness):
+    """guard of C04-typeddict-closed-target-ignores-source-keys: the target TypedDict is closed or has an extra_items
+    type, the source TypedDict declares a key that the target does not, and the witness object carries such a key"""
+    ta, tb = first_td(case["a"]), first_td(case["b"])
+    if ta is None or tb is None or ta[2] is None:
+        return False
+    ka, kb = {e[0] for e in ta[1]}, {e[0] for e in tb[1]}
+    if not (kb - ka):
+        return False
+
+    def dict_keys(o):
+        if not isinstance(o, list):
+            return set()
+        if o and o[0] == "dict":
+            return {k[1] for k, _ in o[2] if k[0] == "str"}
+        out = set()
+        for x in o:
+            out |= dict_keys(x)
+        return out
+
+    return bool(dict_keys(witness) & (kb - ka))
 
 
 def G_has(case, kind):
